@@ -55,6 +55,11 @@ def gen_cases(tier, seed):
             i += 1
             yield {'family': fmt, 'sizes': [3, 2], 'format': fmt, 'pretty': True, 'idx': i, 'seed': seed, 'tier': tier,
                    'paths': paths}
+    # an output path that is a directory created for an earlier resource: the dump may refuse, it must not "succeed"
+    for fmt in ('csv',):
+        i += 1
+        yield {'family': fmt, 'sizes': [2, 1], 'format': fmt, 'pretty': True, 'idx': i, 'seed': seed, 'tier': tier,
+               'paths': [('part', 'archive.csv/part.csv'), ('whole', 'archive.csv')], 'may_fail': True}
     for paths in ([('rivers', 'rivers.tsv'), ('m', 'm.csv')], [('regions', 'REGIONS.CSV'), ('m', 'm.json')]):
         i += 1
         yield {'family': 'csv', 'sizes': [3, 2], 'format': 'csv', 'pretty': True, 'idx': i, 'seed': seed, 'tier': tier,
@@ -193,7 +198,7 @@ def run_case(case):
         rep['online_checks'] = plan.n
         return rep
     code, rec = crashlab.in_child(record, os.path.join(scratch, 'rep.json'))
-    assert code == 0 and rec and (rec['ok'] or case.get('swallowed_failure')), (code, rec)
+    assert code == 0 and rec and (rec['ok'] or case.get('swallowed_failure') or case.get('may_fail')), (code, rec)
     counters['unshimmed_events'] += len(rec['unshimmed'])     # audit-level events (also crash points)
     trace = rec['trace']
     K = len(trace)
@@ -245,6 +250,12 @@ def run_case(case):
         if len(desc.get('resources', [])) != len(tables) and not case.get('no_force_format'):
             add('descriptor_resources', '%s: descriptor lists %d resources of %d' %
                 (what, len(desc.get('resources', [])), len(tables)), 'descriptor_resources')
+    # one run WITHOUT the I/O shims (they re-implement the copy in chunks): the state the real calls leave behind
+    code_p, rep_p = crashlab.in_child(lambda: run_dump('plain'), os.path.join(scratch, 'rep.json'))
+    counters['crash_points_executed'] += 1
+    cov['crash_event_kind']['uninstrumented_run'] = cov['crash_event_kind'].get('uninstrumented_run', 0) + 1
+    verify('plain', 'uninstrumented run (no kill, real shutil / os calls)')
+    shutil.rmtree('plain', ignore_errors=True)
     modes = [('kill', k) for k in ks] + [('raise', k) for k in ks
                                          if k <= K and not big and (k % 3 == 0 or case['tier'] == 'thorough')]
     # persistent faults (every later operation on the same file fails too) at the events that touch output files
